@@ -45,6 +45,11 @@ def run(ctx, rep):
     rep.guarded("R14-LEVEL", lambda: r_level(sh, rep))
     rep.guarded("R14-ERASE", lambda: r_erase(sh, rep))
     rep.guarded("R14-DUAL", lambda: r_dual(sh, rep))
+    # traced and untraced builds of one `expect` have different shapes (chooseData dispatch vs un*Data application): an optimiser
+    # decision that is sound only for value forms keeps both behaviours equal; one widened to applications does not (C02's rule, re-run here)
+    from . import c02
+    rep.rule("R02-VALUEFORM", "the inliner's inline / drop decisions admit only CEK value forms (shared with C02)", floor=2)
+    rep.guarded("R02-VALUEFORM", lambda: c02.r_valueform(sh, rep))
 
 
 def _reads_level(node, sh, rel):
